@@ -1863,6 +1863,8 @@ def add_condition_expr(ir, instr, cond, instr_ir, extra_ir):
 mnemo_func = {}
 mnemo_func_cond = {}
 mnemo_condm0 = {'add': add,
+                'mrs': mrs,
+                'msr': msr,
                 'sub': sub,
                 'eor': eor,
                 'and': l_and,
@@ -1946,8 +1948,6 @@ mnemo_condm1 = {'adds': add,
                 'bics': bics,
                 'mvns': mvns,
 
-                'mrs': mrs,
-                'msr': msr,
 
                 'negs': negs,
 
